@@ -463,26 +463,11 @@ impl PhysicalOperator for StreamingParquetScanExec {
                                 ipc_iter = Some(batches.into_iter());
                                 continue;
                             }
-                            Err(e) => {
-                                return Some((
-                                    Err(e),
-                                    (
-                                        work_iter,
-                                        projection,
-                                        batch_size,
-                                        schema,
-                                        None,
-                                        None,
-                                        (
-                                            runtime_cfg,
-                                            filter_spec,
-                                            dict_schema,
-                                            coerce_back,
-                                            ipc_dirs,
-                                        ),
-                                    ),
-                                ));
-                            }
+                            // An unreadable sidecar (republished or removed by
+                            // another process after it was handed out) is the
+                            // same as no sidecar: read this row group from
+                            // Parquet below.
+                            Err(_) => {}
                         }
                     }
 
